@@ -10,6 +10,7 @@ import (
 	"bufio"
 	"bytes"
 	"errors"
+	"fmt"
 	"io"
 	"os"
 	"path"
@@ -297,6 +298,12 @@ func parseFile(rootParser *Parser, filename string, definitions map[string]strin
 		}
 		readFile, err = os.Open(filePath)
 		if err == nil {
+			// a directory can be opened too, but there is nothing to parse in it
+			if info, statErr := readFile.Stat(); statErr == nil && info.IsDir() {
+				_ = readFile.Close()
+				err = fmt.Errorf("%s is a directory", filePath)
+				continue
+			}
 			break
 		}
 	}
